@@ -626,3 +626,18 @@ BENIGN.append({"name": "grain-types-imported-tuple", "edits": _grain_types_impor
 MUTANTS.append({"name": "grain-imported-tuple-missing-type", "edits": _grain_types_imported("    ReactionType.GRAIN_DESORB_H2,\n"), "rules": ["R2"]})
 BENIGN.append({"name": "kida-law-by-percent-format", "file": K, "old": '            rate = f"{a} * zeta"\n', "new": '            rate = "%s * zeta" % a\n'})
 MUTANTS.append({"name": "kida-percent-format-wrong-symbol", "file": K, "old": '            rate = f"{a} * zeta"\n', "new": '            rate = "%s * zeta * %s" % (a, b)\n', "rules": ["R3"]})
+
+_GRAIN_IMPORT = "from ..reactiontype import ReactionType\n\nif TYPE_CHECKING:\n"
+_GRAIN_SCAN_NT = ("        for entry in self._builders:\n            if rtype == entry.rtype:\n                rate = getattr(self, entry.method)(reac)\n                break\n\n"
+                  "        else:\n            raise ValueError(")
+
+
+def _grain_namedtuple_table(skip=None):
+    """the same table with namedtuple rows, read by field name"""
+    return [{"file": G, "old": _GRAIN_IMPORT, "new": 'from ..reactiontype import ReactionType\nfrom collections import namedtuple\n\n_Builder = namedtuple("_Builder", "rtype method")\n\nif TYPE_CHECKING:\n'},
+            {"file": G, "old": _GRAIN_CHAIN, "new": _GRAIN_SCAN_NT},
+            {"file": G, "old": _GRAIN_DEF, "new": "    _builders = (\n" + "".join(f'        _Builder(ReactionType.{t}, method="{m}"),\n' for t, m in _GRAIN_ARMS if t != skip) + "    )\n\n" + _GRAIN_DEF}]
+
+
+BENIGN.append({"name": "grain-chain-as-namedtuple-table", "edits": _grain_namedtuple_table()})
+MUTANTS.append({"name": "grain-namedtuple-table-missing-type", "edits": _grain_namedtuple_table("GRAIN_RECOMINE"), "rules": ["R2"]})
